@@ -185,6 +185,20 @@ func genC01(t *rapid.T) c01Case {
 			limit = 80
 		}
 		f := g.bounded(limit)
+		if mode == "quantified" && rapid.IntRange(0, 4).Draw(t, "quantifiedCondition") == 0 {
+			// a conditional whose condition is a quantified block (the condition is used in both polarities, the
+			// block's count test is what a negation flips)
+			cond := m.Quant(pick(t, []string{"atMost", "atMost", "atLeast", "nested"}, "condKind"), fmt.Sprintf("e%d", rapid.IntRange(0, g.edges-1).Draw(t, "condEdge")), rapid.IntRange(0, 2).Draw(t, "condN"), m.AtomF(g.atom()))
+			th, el := m.AtomF(g.atom()), m.AtomF(g.atom())
+			switch rapid.IntRange(0, 2).Draw(t, "condShape") {
+			case 0:
+				f = m.IfElse(cond, th, el)
+			case 1:
+				f = m.Not(m.IfElse(cond, th, el))
+			default:
+				f = m.If(cond, th)
+			}
+		}
 		name := fmt.Sprintf("v%d", i)
 		class := "ex.Test"
 		if mode == "quantified" {
